@@ -8,6 +8,7 @@ from vc.contract import Contract, scalar_of
 from vc.engine import Undecided, Cell, IntV
 from . import spec as S
 from .spec import toR
+from bounded import specinterp as SI
 
 REG = {}          # simple callee name -> contract instance (what `cls._name(...)` resolves to)
 def register(cls):
@@ -33,6 +34,7 @@ class Mul(Contract):
             o0 = c.entry_of(ob)
             return [c.forall(d + 1, c.D, lambda j: o[j] == S.CONV(x, y, j)), c.forall(0, d + 1, lambda j: o[j] == o0[j])]
         return {0: inv0}
+    def oracle(self, inp, scal, cfg): return {self.out_key(cfg): SI.conv(inp['x_data'], inp['y_data'])}
 
 
 @register
@@ -49,6 +51,7 @@ class AMul(Contract):
             x, y, o0 = c.pre['x_data'], c.pre['y_data'], c.pre['out']; o = c.cur('out')
             return [c.forall(0, d, lambda j: o[j] == o0[j] + S.CONV(x, y, j)), c.forall(d, c.D, lambda j: o[j] == o0[j])]
         return {0: inv0}
+    def oracle(self, inp, scal, cfg): return {'out': SI.add(inp['out'], SI.conv(inp['x_data'], inp['y_data']))}
 
 
 @register
@@ -66,6 +69,7 @@ class TrueDiv(Contract):
             x, y = c.pre['x_data'], c.pre['y_data']; z = c.local('z_data')
             return [c.forall(0, d, lambda j: z[j] == S.QUOT(x, y, j))] + c.unchanged('x_data', 'y_data', 'out')
         return {0: inv0}
+    def oracle(self, inp, scal, cfg): return {'out': SI.quot(inp['x_data'], inp['y_data'])}
 
 
 @register
@@ -83,6 +87,7 @@ class ITrueDiv(Contract):
             z0, x = c.pre['z_data'], c.pre['x_data']; t = c.local('tmp_data')
             return [c.forall(0, d, lambda j: t[j] == S.QUOT(z0, x, j))] + c.unchanged('x_data', 'z_data')
         return {0: inv0}
+    def oracle(self, inp, scal, cfg): return {'z_data': SI.quot(inp['z_data'], inp['x_data'])}
 
 
 @register
@@ -100,6 +105,7 @@ class Reciprocal(Contract):
             y = c.pre['y_data']; z = c.local('z_data')
             return [c.forall(0, d, lambda j: z[j] == S.RECIP(y, j))] + c.unchanged('y_data', 'out')
         return {0: inv0}
+    def oracle(self, inp, scal, cfg): return {self.out_key(cfg): SI.recip(inp['y_data'])}
 
 
 # ---------------------------------------------------------------------------------------------- elementary kernels
@@ -114,11 +120,13 @@ class Elem1(Contract):
     def ensures(self, c):
         x = c.pre['x_data']; o = c.cur('out')
         return [('out[d] = %s(x,d)' % self.T.name(), c.forall(0, c.D, lambda j: o[j] == self.T(x, j)))]
+    SIF = None
+    def oracle(self, inp, scal, cfg): return {self.out_key(cfg): getattr(SI, self.SIF)(inp['x_data'])}
 
 
 @register
 class Exp(Elem1):
-    qual = A('_exp'); T = S.EXP
+    qual = A('_exp'); SIF = 'exp'; T = S.EXP
     cfgs = {'distinct': {}, 'out_none': {'out': None}}
     def ensures(self, c):
         x = c.pre['x_data']; o = c.outarr()
@@ -137,7 +145,7 @@ class Exp(Elem1):
 
 @register
 class Log(Elem1):
-    qual = A('_log'); T = S.LOG
+    qual = A('_log'); SIF = 'log'; T = S.LOG
     def domain(self, x): return [x[0] != 0]
     def spec_instances(self, c, n): return S.log_def(c, c.pre['x_data'], n)
     def invariants(self):
@@ -167,50 +175,53 @@ class Pair(Contract):
             x = c.pre['x_data']; a, b = c.cur('out.0'), c.cur('out.1')
             return [c.forall(0, d, lambda j: z3.And(a[j] == self.T0(x, j), b[j] == self.T1(x, j)))] + c.unchanged('x_data')
         return {0: inv0}
+    SIF = None
+    def oracle(self, inp, scal, cfg):
+        a, b = getattr(SI, self.SIF)(inp['x_data']); return {'out.0': a, 'out.1': b}
 
 
 @register
 class SinCos(Pair):
-    qual = A('_sincos'); T0, T1 = S.SIN, S.COS
+    qual = A('_sincos'); SIF = 'sincos'; T0, T1 = S.SIN, S.COS
     def spec_instances(self, c, n): return S.sincos_def(c, c.pre['x_data'], n)
 
 @register
 class SinhCosh(Pair):
-    qual = A('_sinhcosh'); T0, T1 = S.SINH, S.COSH
+    qual = A('_sinhcosh'); SIF = 'sinhcosh'; T0, T1 = S.SINH, S.COSH
     def spec_instances(self, c, n): return S.sinhcosh_def(c, c.pre['x_data'], n)
 
 @register
 class TanSec2(Pair):
-    qual = A('_tansec2'); T0, T1 = S.TAN, S.SEC2
+    qual = A('_tansec2'); SIF = 'tansec2'; T0, T1 = S.TAN, S.SEC2
     def domain(self, x): return [S.np('cos')(x[0]) != 0]
     def spec_instances(self, c, n): return S.tansec2_def(c, c.pre['x_data'], n)
 
 @register
 class TanhSech2(Pair):
-    qual = A('_tanhsech2'); T0, T1 = S.TANH, S.SECH2
+    qual = A('_tanhsech2'); SIF = 'tanhsech2'; T0, T1 = S.TANH, S.SECH2
     def spec_instances(self, c, n): return S.tanhsech2_def(c, c.pre['x_data'], n)
 
 @register
 class ArcSin(Pair):
-    qual = A('_arcsin'); T0, T1 = S.ASIN, S.ASINZ
+    qual = A('_arcsin'); SIF = 'arcsin'; T0, T1 = S.ASIN, S.ASINZ
     def domain(self, x): return [S.np('cos')(S.np('arcsin')(x[0])) != 0]
     def spec_instances(self, c, n): return S.arcsin_def(c, c.pre['x_data'], n)
 
 @register
 class ArcCos(Pair):
-    qual = A('_arccos'); T0, T1 = S.ACOS, S.ACOSZ
+    qual = A('_arccos'); SIF = 'arccos'; T0, T1 = S.ACOS, S.ACOSZ
     def domain(self, x): return [S.np('sin')(S.np('arccos')(x[0])) != 0]
     def spec_instances(self, c, n): return S.arccos_def(c, c.pre['x_data'], n)
 
 @register
 class ArcTan(Pair):
-    qual = A('_arctan'); T0, T1 = S.ATAN, S.ATANZ
+    qual = A('_arctan'); SIF = 'arctan'; T0, T1 = S.ATAN, S.ATANZ
     def spec_instances(self, c, n): return S.arctan_def(c, c.pre['x_data'], n)
 
 
 @register
 class Sqrt(Elem1):
-    qual = A('_sqrt'); T = S.SQRT
+    qual = A('_sqrt'); SIF = 'sqrt'; T = S.SQRT
     def domain(self, x): return [S.np('sqrt')(x[0]) != 0]
     def spec_instances(self, c, n): return S.sqrt_def(c, c.pre['x_data'], n)
     def invariants(self):
@@ -243,6 +254,7 @@ class Square(Contract):
             x = c.pre['x_data']; t = c.local('tmp')
             return [c.forall(0, d, lambda j: t[j] == S.CONV(x, x, j)), c.forall(d, c.D, lambda j: t[j] == 0)] + c.unchanged('x_data', 'out')
         return {0: inv0}
+    def oracle(self, inp, scal, cfg): return {self.out_key(cfg): SI.conv(inp['x_data'], inp['x_data'])}
 
 
 @register
@@ -262,6 +274,10 @@ class PlusConst(Contract):
         from vc.contract import _SubCtx
         if isinstance(c, _SubCtx): return c.bound.get('out') is not None
         return c.present.get('out', False)
+    def native_scalars(self, cfg, rng): return {'c': round(rng.uniform(-2, 2) * 8) / 8}
+    def oracle(self, inp, scal, cfg):
+        src = inp['out'] if cfg == 'distinct' else inp['x_data']
+        return {self.out_key(cfg): [src[0] + scal['c']] + list(src[1:])}
 
 
 @register
@@ -272,6 +288,7 @@ class Negative(Contract):
     def ensures(self, c):
         x = c.pre['x_data']; o = c.outarr()
         return [('out = -x', c.forall(0, c.D, lambda j: o[j] == -x[j]))]
+    def oracle(self, inp, scal, cfg): return {self.out_key(cfg): [-v for v in inp['x_data']]}
 
 
 @register
@@ -297,3 +314,7 @@ class BlackFWhiteFprime(Contract):
             return [c.forall(0, d, lambda j: y[j] == S.BFWF(x, fp, self.f0(c), j)), c.forall(d + 1, c.D, lambda j: y[j] == 0),
                     y[d] == c.Sum(z3.IntVal(0), cc - 1, lambda k: fp[d - 1 - k] * x[k + 1] * toR(k + 1))] + c.unchanged('x_data', 'fprime_data')
         return {0: inv0, 1: inv1}
+    def native_scalars(self, cfg, rng):
+        import numpy; return {'f': numpy.tanh}
+    def oracle(self, inp, scal, cfg):
+        import math; return {self.out_key(cfg): SI.bfwf(inp['x_data'], inp['fprime_data'], math.tanh(inp['x_data'][0]))}
